@@ -75,6 +75,7 @@ package common
 //@   ensures [decoder-error-is-reported] called("dynamic:param:unmarshal") && (ret("dynamic:param:unmarshal") != nil ==> result == ret("dynamic:param:unmarshal"))
 //@   ensures [parse-error-is-reported] called("dynamic:global:parseMatchers") && ret1("dynamic:global:parseMatchers") != nil ==> result == ret1("dynamic:global:parseMatchers")
 //@   ensures [every-line-parsed-then-sorted-once] result == nil ==> count("dynamic:global:parseMatchers") == len(lines) && count("sort.Sort") == 1
+//@   ensures [sorting-is-the-only-thing-done-to-the-list-after-parsing] !called("slices.") && !called("maps.")
 //@   loop 1 invariant rangeindex < len(lines) && count("dynamic:global:parseMatchers") == rangeindex + 1 && !called("sort.Sort") && (called("dynamic:global:parseMatchers") ==> ret1("dynamic:global:parseMatchers") == nil)
 //@   loop 1 earlyexit called("dynamic:global:parseMatchers") && ret1("dynamic:global:parseMatchers") != nil
 //@   noeffect dynamic:global:parseMatchers
